@@ -312,6 +312,34 @@ partial def walkMany (cfg : Config) (k : Nat) (rng : UInt64) (done dead faults b
   walkMany cfg (k - 1) (xorshift (rng' + 0x9E3779B97F4A7C15)) (done + (if v = "done" then 1 else 0)) (dead + (if v = "deadlock" then 1 else 0))
     (faults + (if v.startsWith "fault" then 1 else 0)) (bounds + (if v = "bound" then 1 else 0)) (steps + n) bad'
 
+/-- does thread `t`, running ALONE from `s`, come back to a state with the same hash within `k` micro-steps?
+    (search for busy-spin cycles; a test) -/
+partial def soloCycle (h0 : UInt64) (s : State) (t : Tid) (k : Nat) (n : Nat) : Option Nat :=
+  if k = 0 then none else
+  match step s t with
+  | none => none
+  | some (s', _) => if stateHash s' == h0 && n > 0 then some (n + 1) else soloCycle h0 s' t (k - 1) (n + 1)
+
+partial def cycleWalk (s : State) (rng : UInt64) (n : Nat) (path : List Tid) (maxSteps : Nat) : Option (List Tid × Tid × Nat) :=
+  if n ≥ maxSteps then none else
+  let ts := (List.range s.nthreads).filter (fun t => enabled s t)
+  if ts.isEmpty then none else
+  let h0 := stateHash s
+  match ts.findSome? (fun t => (soloCycle h0 s t 80 0).map (fun len => (t, len))) with
+  | some (t, len) => some (path.reverse, t, len)
+  | none =>
+    let rng := xorshift rng
+    let t := ts.getD (rng.toNat % ts.length) 0
+    match step s t with
+    | some (s', _) => cycleWalk (if (n + 1) % 64 = 0 then compact s' else s') rng (n + 1) (t :: path) maxSteps
+    | none => none
+
+partial def cycleSearch (cfg : Config) (k : Nat) (rng : UInt64) : Option (List Tid × Tid × Nat) :=
+  if k = 0 then none else
+  match cycleWalk (State.init cfg) rng 0 [] 5000 with
+  | some r => some r
+  | none => cycleSearch cfg (k - 1) (xorshift (rng + 0x9E3779B97F4A7C15))
+
 def faultLines (s : State) : List String :=
   match s.fault with
   | some m => [s!"MODEL-FAULT {m}"]
@@ -381,6 +409,13 @@ def stepLine (d : DState) (ws : List String) : DState × String :=
         | some (w, p) => s!" first-bad={w} schedule={",".intercalate (p.map toString)}"
         | none => ""
       (d, s!"W walks={k} done={dn} deadlocks={dead} faults={faults} bound={bounds} steps={steps}{b}")
+    | _, _, _ => (d, "bad-op")
+  | "C" :: walks :: seed :: rest =>
+    match parseCfg rest, walks.toNat?, seed.toNat? with
+    | some cfg, some k, some sd =>
+      match cycleSearch cfg k (UInt64.ofNat (sd * 2654435761 + 88172645463325252)) with
+      | some (pre, t, len) => (d, s!"C cycle thread={t} len={len} prefix={",".intercalate (pre.map toString)}")
+      | none => (d, "C none")
     | _, _, _ => (d, "bad-op")
   | ["M"] => (d, "M " ++ ",".intercalate (d.micro.reverse.map toString))
   | ["F"] =>
